@@ -412,6 +412,14 @@ def targeted(kind: str):
     for ha in ((2, 4), (4, 2)):
         for hb in ((5, 2), (2, 5)):
             graphs.append((ha, hb, (6,), (6,), (3,), (3,), ()))
+    # a common hypernym c reached over chains of different length to the roots (c -> r and c -> m -> n -> top), in both
+    # orders; a, b -> c   (0=a 1=b 2=c 3=r 4=m 5=n 6=top)
+    for hc in ((3, 4), (4, 3)):
+        graphs.append(((2,), (2,), hc, (), (5,), (6,), ()))
+    # a real common hypernym far away and two own roots close by: with simulate_root the shortest path runs over the
+    # fake root   (0=a 1=b 2=ra 3=rb 4,5 = chain of a, 6,7 = chain of b, 8 = c)
+    for ha in ((2, 4), (4, 2)):
+        graphs.append((ha, (3, 6), (), (), (5,), (8,), (7,), (8,), ()))
     fails = []
     for g in graphs:
         fails.extend(_run((kind, g)))
